@@ -294,6 +294,11 @@ func runInBubble(sc *Scenario) *History {
 	for i := range sc.Reqs {
 		h.Callers[i] = &Caller{Req: i, Items: sc.Reqs[i].Items()}
 	}
+	type spanBase struct {
+		ctx  context.Context
+		span trace.Span
+	}
+	spanBases := map[int]spanBase{}
 	group := func(i int) *CtxGroup {
 		r := sc.Reqs[i]
 		g := h.Groups[r.Ctx]
@@ -301,13 +306,21 @@ func runInBubble(sc *Scenario) *History {
 			return g
 		}
 		g = &CtxGroup{ID: r.Ctx}
-		ctx := context.WithValue(bg, markerKey{}, r.Ctx)
+		base := bg
+		if sc.Spans {
+			// the request span may be shared by several distinct contexts
+			sb, ok := spanBases[r.SpanOf]
+			if !ok {
+				sb.ctx, sb.span = tracer.Start(bg, fmt.Sprintf("request-span%d", r.SpanOf))
+				spanBases[r.SpanOf] = sb
+			}
+			base = sb.ctx
+			g.span = sb.span
+			g.SpanID = sb.span.SpanContext().SpanID().String()
+		}
+		ctx := context.WithValue(base, markerKey{}, r.Ctx)
 		if len(r.Meta) > 0 {
 			ctx = client.NewContext(ctx, client.Info{Metadata: client.NewMetadata(r.Meta)})
-		}
-		if sc.Spans {
-			ctx, g.span = tracer.Start(ctx, fmt.Sprintf("request-ctx%d", r.Ctx))
-			g.SpanID = g.span.SpanContext().SpanID().String()
 		}
 		if r.DeadlineMs > 0 {
 			ctx, g.cancel = context.WithTimeout(ctx, time.Duration(r.DeadlineMs)*time.Millisecond)
